@@ -370,7 +370,14 @@ pub fn build_access(spec: &SiSpec) -> Arc<dyn AccessModel> {
             let headings: Vec<EdgeHeading> = td
                 .headings
                 .iter()
-                .map(|(a, b)| EdgeHeading::new(*a, *b))
+                .map(|(a, b)| {
+                    if a == b {
+                        // the form a table row without departure heading deserialises to
+                        serde_json::from_value::<EdgeHeading>(serde_json::json!({"arrival_heading": a})).unwrap_or_else(|_| EdgeHeading::new(*a, *b))
+                    } else {
+                        EdgeHeading::new(*a, *b)
+                    }
+                })
                 .collect();
             let mut table = HashMap::new();
             for i in 0..8 {
@@ -682,7 +689,12 @@ pub fn state_strategy() -> impl Strategy<Value = StateSpec> {
 
 pub fn turn_delay_strategy(m: usize) -> impl Strategy<Value = TurnDelaySpec> {
     (
-        proptest::collection::vec((0i16..360, 0i16..360), m.max(1)),
+        // a quarter of the edges are straight (end heading = start heading): such an edge is
+        // written without a departure heading, which is optional in the heading table
+        proptest::collection::vec(
+            prop_oneof![3 => (0i16..360, 0i16..360), 1 => (0i16..360).prop_map(|a| (a, a))],
+            m.max(1),
+        ),
         proptest::array::uniform8(prop_oneof![1 => Just(0.0f64), 4 => (0.0f64..30.0).prop_map(|v| (v * 4.0).round() / 4.0)]),
         0u8..4,
     )
